@@ -1,10 +1,13 @@
 package splicegen
 
 import (
+	"fmt"
 	"math/rand"
+	"os"
 	"sort"
 	"strings"
 	"sync"
+	"time"
 
 	"github.com/onflow/cadence/parser"
 
@@ -63,34 +66,35 @@ func build(root string) *Corpus {
 	}
 	// pass 2: imports, normalisation, acceptance
 	r := rand.New(rand.NewSource(1))
-	for _, x := range ps {
+	one := func(x parsed) {
 		p, _ := parser.ParseProgram(nil, []byte(x.s.Text), parser.Config{})
 		deps, dh, ok := b.resolveDeps(p, x.s.File, 0)
 		if !ok {
 			c.Rejected[RejImports]++
-			continue
+			return
 		}
-		kind := KScript
-		switch x.shape {
-		case ShapeTx:
-			kind = KTx
-		case ShapeContract:
-			kind = KContract
-		}
-		src, ck := checkFix(dh, kind, x.s.Text)
+		src, ck := checkFix(dh, kindOfShape(x.shape), x.s.Text)
 		if !ck.OK() {
 			c.Rejected[rej(ck)]++
-			continue
+			return
 		}
 		base := &Base{Snippet: x.s, Shape: x.shape, Source: src, Deps: deps, depHost: dh,
 			Features: FeaturesOf(ck.Program.Program)}
 		// the unmutated snippet must assemble into something executable
 		if _, why := assemble(base, src, r); why != "" {
 			c.Rejected[why]++
-			continue
+			return
 		}
 		c.Bases = append(c.Bases, base)
 		c.ByShape[x.shape] = append(c.ByShape[x.shape], base)
+	}
+	debug := os.Getenv("SPLICE_DEBUG") != ""
+	for _, x := range ps {
+		t0 := time.Now()
+		one(x)
+		if d := time.Since(t0); debug && d > 30*time.Millisecond {
+			fmt.Println("SLOW", d, x.s.File, x.s.Line, x.shape)
+		}
 	}
 	return c
 }
